@@ -512,5 +512,5 @@ func c03Gen(t *rapid.T) c03Case {
 func init() {
 	vfRapid("C03/roundtrip",
 		"non-trivial = the event has a non-empty content object and at least one prev or auth event, or is a v12 create event; distinct = distinct Case JSON",
-		1500, 40000, 16, c03Gen, c03Check)
+		1500, 160000, 16, c03Gen, c03Check)
 }
